@@ -686,6 +686,20 @@ class Engine:
                     if (cv & _mask(w or 32)) == c:
                         return [self.goto(st, f, tb)]
                 return [self.goto(st, f, inst.x['targets'][0])]
+            if is_expr(c):
+                # a symbolic value over a finite set: each case edge keeps the elements that select it, the default edge the rest
+                w = width_of(f.fn.imap[inst.ops[0]].ty) if isinstance(inst.ops[0], str) and inst.ops[0] in f.fn.imap else 32
+                outs, cur = [], st
+                for cv, tb in inst.x['cases']:
+                    if cur is None:
+                        break
+                    t, fl = self.split(cur, ('e', c[1], ('c', 'eq', w or 32, c[2], cv & _mask(w or 32))))
+                    if t is not None:
+                        outs.append(self.goto(t, t.top, tb))
+                    cur = fl
+                if cur is not None:
+                    outs.append(self.goto(cur, cur.top, inst.x['targets'][0]))
+                return outs
             outs = []
             tg = [inst.x['targets'][0]] + [tb for _, tb in inst.x['cases']]
             for tb in dict.fromkeys(tg):
@@ -775,6 +789,8 @@ class Engine:
                 fz = s_null.top
                 if p.base.startswith(('tok:', 'sum:')):
                     s_null.ghost[('zero', p.base)] = 1          # an opaque integer token was found equal to 0 on this path
+                if p.base.startswith('heap:') and not p.path:
+                    s_null.ghost.pop(('alloc', p.base), None)   # the allocation failed on this path: there is no block to account for
                 self.replace_value(s_null, p, 0)
                 fz.regs[inst.id] = int(pred == 'eq')
                 fz.idx += 1
@@ -788,6 +804,9 @@ class Engine:
         ka, kb = kind(a), kind(b)
         solid = ('glob', 'func', 'alloca', 'client')
         if ka in solid and kb in solid and a.base != b.base:
+            return True
+        # a block obtained from malloc in this activation (possibly NULL) is never one of the named objects
+        if (ka == 'heap' and kb in solid) or (kb == 'heap' and ka in solid):
             return True
         if a.base == b.base and a.path != b.path and all(x[0] == 'f' for x in a.path + b.path):
             return True
